@@ -710,6 +710,14 @@ def is_range_index(path, full):
     return (path.endswith("::index") or path.endswith("::index_mut")) and ("ops::Range" in full) and ("[" in full or "Vec<" in full)
 
 
+def m_default_scalar(ip, st, fr, t, args):
+    """<integer / bool as Default>::default() = 0 / false"""
+    ii = ip.int_info(t["dest"]["ty"])
+    if ii is None:
+        return None
+    return Int(bv.const(0, ii[0]))
+
+
 def standard_models():
     models = {
         "<std::result::Result<T, E> as std::ops::Try>::branch": m_try_branch,
@@ -768,6 +776,7 @@ def standard_models():
         (lambda p, f: p in ("std::ops::RangeInclusive::<Idx>::contains", "core::ops::RangeInclusive::<Idx>::contains", "std::ops::Range::<Idx>::contains", "core::ops::Range::<Idx>::contains"), m_range_contains),
         (lambda p, f: p in ("core::bool::<impl bool>::then_some", "std::bool::<impl bool>::then_some", "core::bool::<impl bool>::then", "std::bool::<impl bool>::then"), m_bool_then),
         (lambda p, f: (p or "").startswith("core::fmt::rt::") or (p or "").startswith("std::fmt::Arguments") or (p or "").startswith("core::fmt::Arguments") or (p or "").startswith("std::fmt::rt::"), m_opaque("fmt")),
+        (lambda p, f: (p or "").endswith(" as std::default::Default>::default") and (p or "")[1:].split(" ")[0] in ("u8", "u16", "u32", "u64", "u128", "usize", "i8", "i16", "i32", "i64", "i128", "isize", "bool"), m_default_scalar),
         (lambda p, f: (p or "").startswith("anyhow::__private::"), m_anyhow),
         (lambda p, f: (p or "").startswith("anyhow::context::<impl anyhow::Context<") and ((p or "").endswith("::with_context") or (p or "").endswith("::context")), m_identity0),
     ]
